@@ -1,5 +1,5 @@
 From Coq Require Import ZArith List Bool Lia Arith Permutation.
-From V Require Import Base.OptOrder Model.Sel Model.PoolQuery Model.MultiAnnot Proofs.SelProofs Proofs.PoolProofs.
+From V Require Import Base.OptOrder Model.Sel Model.PoolQuery Model.MultiAnnot Proofs.SelProofs Proofs.PoolProofs Proofs.SkeletonProofs.
 Import ListNotations.
 Open Scope Z_scope.
 
@@ -313,4 +313,50 @@ Proof.
     pose proof (nsum_le _ _ Hle);
     (assert ((bs <=? nsum cur)%nat = false) as -> by (apply Nat.leb_gt; lia)); [reflexivity|].
   apply IH; [|exact Hlt]. apply (bump_props nmax cur Hle).
+Qed.
+
+(* ---------- annotators given as an index array: the clipped pair count is the number of available pairs ---------- *)
+Lemma filter_memb_length (l : list nat) (na : nat) :
+  Forall (fun j => (j < na)%nat) l ->
+  length (filter (fun j => memb j l) (seq 0 na)) = length (uniq_sort l).
+Proof.
+  intros Hlt.
+  assert (N1 : NoDup (filter (fun j => memb j l) (seq 0 na))) by (apply NoDup_filter, seq_NoDup).
+  assert (N2 : NoDup (uniq_sort l)) by (apply sorted_lt_nodup, uniq_sort_sorted).
+  apply Nat.le_antisymm; apply NoDup_incl_length; try assumption; intros x Hx.
+  - apply filter_In in Hx. destruct Hx as [_ Hm]. apply memb_In in Hm. apply (cand_idx_members l [] x). exact Hm.
+  - apply (cand_idx_members l [] x) in Hx. apply filter_In. split.
+    + apply in_seq. rewrite Forall_forall in Hlt. specialize (Hlt x Hx). lia.
+    + apply memb_In. exact Hx.
+Qed.
+
+Lemma idx_row_count na l : Forall (fun j => (j < na)%nat) l ->
+  length (filter (fun b : bool => b) (idx_row na l)) = length (uniq_sort l).
+Proof.
+  intros H. rewrite <- (filter_memb_length l na H). unfold idx_row.
+  generalize (seq 0 na). intros s. induction s as [|x t IH]; [reflexivity|].
+  cbn [map filter]. destruct (memb x l); cbn [length]; rewrite IH; reflexivity.
+Qed.
+
+Lemma count_true_const_row (r : list bool) (rows : list nat) :
+  count_true (map (fun _ => r) rows) = (length rows * length (filter (fun b : bool => b) r))%nat.
+Proof. induction rows as [|x t IH]; [reflexivity|]. cbn [map length]. rewrite count_true_cons, IH. lia. Qed.
+
+Theorem n_pairs_annotator_indices y c l :
+  Forall (fun j => (j < n_annot y)%nat) l ->
+  n_pairs y c (AIdx l) = count_true (ma_avail y c (AIdx l)).
+Proof.
+  intros H. unfold n_pairs, ma_avail. rewrite count_true_const_row, idx_row_count by exact H.
+  destruct c as [|ci|m]; cbn [ma_rows]; rewrite ?seq_length; reflexivity.
+Qed.
+
+(* all three ways of giving annotators *)
+Theorem n_pairs_counts_available y c a :
+  (forall l, a = AIdx l -> Forall (fun j => (j < n_annot y)%nat) l) ->
+  n_pairs y c a = count_true (ma_avail y c a).
+Proof.
+  intros Ha. destruct a as [|l|m].
+  - apply n_pairs_counts_available_partial. intros l; discriminate.
+  - apply n_pairs_annotator_indices. apply Ha. reflexivity.
+  - apply n_pairs_counts_available_partial. intros l; discriminate.
 Qed.
